@@ -125,6 +125,29 @@ def decl_programs(draw, profile=None):
         tail.append("autoarr = 1.0")
         tail.append("y = y + autoarr(n + 1)")
         feats.add("automatic_array")
+    # ---- a kind parameter that is LOCAL in the routine under test and
+    # IMPORTED (same name) by a helper: inlining the helper has to rename
+    # one of them, which re-orders the caller's symbol table
+    subs = [h for h in prog.helpers if not h.is_function]
+    if subs and flip(1, 3):
+        import copy
+        feats.add("local_kind_vs_imported_kind")
+        if not pre:
+            pre += ["module mu@U@", "  implicit none",
+                    "  integer, parameter :: q1 = 3", "end module mu@U@"]
+        pre.insert(2, "  integer, parameter :: wq = kind(1.0d0)")
+        ldecl.append("integer, parameter :: wq = kind(1.0d0)")
+        ldecl.append("real(kind=wq), dimension(2), parameter :: lca = "
+                     "(/1.0, 2.0/)")
+        ldecl.append("real(kind=wq) :: lqv")
+        tail.append("lqv = lca(2)")
+        tail.append("y = y + real(lqv)")
+        hlp = copy.copy(subs[draw(st.integers(0, len(subs) - 1))])
+        hlp.use_lines = ["use mu@U@, only: wq"]
+        hlp.decl_lines = ["real(kind=wq) :: hq"]
+        hlp.lines = ["hq = 1.5_wq"] + list(hlp.lines)
+        prog.helpers = [hlp if h.name == hlp.name else h
+                        for h in prog.helpers]
     prog.spec_lines = spec
     prog.use_lines = uses
     prog.local_decl_lines = ldecl
